@@ -185,6 +185,12 @@ def realise(case, seed=0):
         rnd.shuffle(fam)
         pick = fam[:3]
         form = sum((k + 1) * f_ for k, f_ in enumerate(pick)) * inner(u, v) * dX
+    elif term == "geo":
+        h = ufl.CellDiameter(dom)
+        q_ = h * ufl.MinCellEdgeLength(dom) + ufl.MaxCellEdgeLength(dom)
+        if cell in ("interval", "triangle"):
+            q_ = q_ + ufl.Circumradius(dom) * ufl.CellVolume(dom)
+        form = q_ * inner(u, v) * dX
     elif term == "cplx":
         F, G = ufl.Coefficient(V), coef("P1")
         K = ufl.Constant(dom)
@@ -253,6 +259,18 @@ def realise_facet(item):
         form = inner(jump(ufl.Coefficient(V)), avg(v)) * dM
     elif term == "njump":
         form = dot(jump(u, n), jump(v, n)) * dM
+    elif term in ("geods", "geodS"):
+        simplex = cell in ("interval", "triangle")
+        if term == "geods":
+            q_ = ufl.CellDiameter(dom) + ufl.MinCellEdgeLength(dom) * ufl.MaxCellEdgeLength(dom)
+            if simplex:
+                q_ = q_ + ufl.Circumradius(dom) + ufl.FacetArea(dom) * ufl.CellVolume(dom)
+            form = q_ * inner(u, v) * dM
+        else:
+            hm = ufl.CellDiameter(dom)("-") + 2 * ufl.MaxCellEdgeLength(dom)("+") * ufl.MinCellEdgeLength(dom)("-")
+            if simplex:
+                hm = hm + ufl.Circumradius(dom)("-") + 3 * ufl.Circumradius(dom)("+") + ufl.CellVolume(dom)("-") * ufl.FacetArea(dom)("+")
+            form = hm * inner(jump(u), jump(v)) * dM + ufl.avg(ufl.CellDiameter(dom)) * inner(u("-"), v("+")) * dM
     else:
         raise ValueError(term)
     return {"form": form, "exact_ok": rule == "exact", "case": case, "gdim": td, "tdim": td}
